@@ -132,7 +132,14 @@ class E2ERunner:
         q = ""
         if pre:
             q = "?a%s" % self.c02.pre_text(pre) + (",g%s" % self.c02.pre_text(pre) if srv.shape else "")
-        return open_url("http://localhost/ds" + q, application=srv, output_grid=og, protocol="dap2")
+        try:
+            return open_url("http://localhost/ds" + q, application=srv, output_grid=og, protocol="dap2")
+        except Exception as e:          # judged, not a harness error: a valid hyperslab must open
+            self.ctx.oracle_fail("opening the dataset with a valid hyperslab raised",
+                                 {"kind": "e2e-array", "ty": srv.ty, "shape": list(srv.shape), "vals": [], "pre": [list(p) for p in pre],
+                                  "index": "()", "output_grid": og},
+                                 "escaped:" + type(e).__name__, "a dataset")
+            return None
 
     def head(self, srv, pre, idx):
         t = idx if isinstance(idx, tuple) else (idx,)
@@ -300,12 +307,14 @@ def explore_e2e(ctx, c02, quick):
                 if not shape or r < 0.55:
                     if True not in clients:
                         clients[True] = R.open(srv, pre, True)
-                    R.array_case(srv, clients[True], pre, idx, "sampled")
+                    if clients[True] is not None:
+                        R.array_case(srv, clients[True], pre, idx, "sampled")
                 else:
                     og = r < 0.9
                     if og not in clients:
                         clients[og] = R.open(srv, pre, og)
-                    R.grid_case(srv, clients[og], pre, idx, og, "sampled")
+                    if clients[og] is not None:
+                        R.grid_case(srv, clients[og], pre, idx, og, "sampled")
         if k % 10 == 9:
             R.flush("end to end on values (array, body, text, grid)")
     R.flush("end to end on values (array, body, text, grid)")
@@ -324,7 +333,10 @@ def replay_case(ctx, c02, c):
     pre = [tuple(p) for p in c.get("pre", [])]
     R = E2ERunner(ctx, c02)
     idx = eval(c["index"], g)
+    cl = R.open(srv, pre, True if c["kind"] == "e2e-array" else c["output_grid"])
+    if cl is None:
+        return
     if c["kind"] == "e2e-array":
-        R.array_case(srv, R.open(srv, pre, True), pre, idx, "replay")
+        R.array_case(srv, cl, pre, idx, "replay")
     else:
-        R.grid_case(srv, R.open(srv, pre, c["output_grid"]), pre, idx, c["output_grid"], "replay")
+        R.grid_case(srv, cl, pre, idx, c["output_grid"], "replay")
